@@ -1,2 +1,14 @@
-(* C05 placeholder: statements follow with Model/StackProto.v *)
-From RT Require Import Model.StackTrace.
+(* C05 -- tables.list always names an openable, ordered stack of complete tables.
+   Statements only.  [c05_ok]: after EVERY file-system operation of EVERY
+   schedule (crashes included) every table named in tables.list exists and is
+   complete, the named tables have strictly increasing update-index ranges, and
+   no successful remove ever hits a table the list names at that instant. *)
+From Coq Require Import List NArith Arith Bool.
+From RT Require Import Model.StackTrace Model.StackProto Proofs.StackInvProofs.
+Import ListNotations.
+
+Theorem C05_integrity : forall size_oracle attempts tabs scripts sched,
+  init_ok tabs -> Forall (fun s => forallb modelled s = true) scripts ->
+  c05_ok (trace_of size_oracle attempts tabs scripts sched) = true.
+Proof. exact c05_all_traces. Qed.
+Print Assumptions C05_integrity.
